@@ -183,4 +183,18 @@ def canSplit (S : Schema) (doc : Node) (pos depth : Nat) : Option Bool :=
   | some r => canSplitR S r depth
   | none => none
 
+/-- the one thing `can_split` does not look at: when the cut falls *inside* a text child, the left half of
+    the parent ends with the first part of that text, and `can_replace(index, child_count)` only validates
+    the children *before* it.  The guard asks for `can_replace(index + 1, child_count)` in that case
+    (true for every `text*` / `inline*` textblock; false e.g. for content `(text image)*` cut inside the
+    text, where `can_split` approves and `split` then fails). -/
+def splitGuardR (S : Schema) (r : RPos) : Bool :=
+  r.textOffset == 0 ||
+    S.nodeCanReplace r.parent (r.index r.depth + 1) r.parent.kids.length [] == some true
+
+def splitGuard (S : Schema) (doc : Node) (pos : Nat) : Bool :=
+  match doc.resolve pos with
+  | some r => splitGuardR S r
+  | none => true
+
 end PM
